@@ -111,7 +111,7 @@ pub fn program(c: &Case) -> File {
             })
             .collect()
     };
-    let mut push = |mut it: Item, items: &mut Vec<Item>| {
+    let push = |mut it: Item, items: &mut Vec<Item>| {
         if generic {
             it.generics = vec!["T".into()];
         }
